@@ -26,6 +26,21 @@ type G struct {
 	Escalated bool
 	ops       []string
 	gens      []genReq
+	bytes     int // total size of the operation lines of this stream so far
+	Dropped   int // operation lines not accepted because the stream's memory budget was used up
+}
+
+// streamBudget bounds the operation lines one stream may hold (they are kept in memory together
+// with both sides' answers: a few times this figure is what the run needs)
+const streamBudget = 1500 << 20
+
+func (g *G) admit(n int) bool {
+	if g.bytes+n > streamBudget {
+		g.Dropped++
+		return false
+	}
+	g.bytes += n
+	return true
 }
 
 type genReq struct {
@@ -37,6 +52,13 @@ type genReq struct {
 // rendering of a document model under a layout); mk turns the driver's answer into the
 // operation lines that are then run on implementation and model.
 func (g *G) EmitGen(mk func(out string) []string, op string, args ...string) {
+	n := len(op)
+	for _, a := range args {
+		n += len(a) + 1
+	}
+	if !g.admit(2 * n) {
+		return
+	}
 	g.gens = append(g.gens, genReq{line: op + " " + strings.Join(args, " "), mk: mk})
 }
 
@@ -81,6 +103,13 @@ func (g *G) N(quick, thorough int) int {
 
 // Emit queues one operation line: op name and already-encoded arguments.
 func (g *G) Emit(op string, args ...string) {
+	n := len(op)
+	for _, a := range args {
+		n += len(a) + 1
+	}
+	if !g.admit(n) {
+		return
+	}
 	if len(args) == 0 {
 		g.ops = append(g.ops, op)
 		return
@@ -223,6 +252,7 @@ type streamStats struct {
 	SizeHist map[string]int `json:"op_length_histogram"`
 	SpecSeen int            `json:"cases_with_spec_verdict"`
 	Domain   string         `json:"domain,omitempty"`
+	Dropped  int            `json:"operations_dropped_by_memory_budget,omitempty"`
 }
 
 func sizeBucket(n int) string {
@@ -519,7 +549,7 @@ func Run(p *Property, o Options) int {
 			var st *streamStats
 			var seen map[string]bool
 			if record {
-				st = &streamStats{Outcomes: map[string]int{}, SizeHist: map[string]int{}, Domain: s.Domain}
+				st = &streamStats{Outcomes: map[string]int{}, SizeHist: map[string]int{}, Domain: s.Domain, Dropped: g.Dropped}
 				stats[s.Name] = st
 				seen = map[string]bool{}
 			}
